@@ -137,6 +137,7 @@ class Engine:
         self.opi = -1
         self.ops_done = 0
         self.quarantined = 0
+        self._gen_fn = {}
         self._latest = {}
         self.tooled_inplace = set()
         self._recv_cache = {}
@@ -544,6 +545,7 @@ class Engine:
             self._enter_cache[aid] = self.opi
         if op["op"] == "gen_new":
             self._gen_created[op["gen"]] = [self.opi, op["fn"]]
+            self._gen_fn[op["gen"]] = op["fn"]
         elif op["op"].startswith("gen_") and op.get("gen") in self._gen_created:
             created, fn = self._gen_created[op["gen"]]
             for aid in range(n_acts_before + 1, tr.n + 1):
@@ -803,12 +805,15 @@ class Engine:
             rec = self.probes[pid]
             how = rec.spec.get("how")
             if how and how[0] in ("const", "ctx_mod3_const"):
-                sel = rec.spec["sels"][0]
-                if sel["levels"][-1]["fn"] == fn and sel["focus"]["var"] == var and len(sel["levels"]) == 1:
-                    alat = self._latest.get(act.id, {})
-                    ctx = {cap.get("as") or cap["var"]: alat[cap["var"]]
-                           for cap in sel["levels"][0].get("caps", []) if cap["var"] in alat}
-                    r = apply_override(how, None, ctx)
+                # (one per way the overrider's chain matches the live stack, as for any binding)
+                for sel, how_, emb, stack in self._interceptions(rec, fn, var, act, tracer):
+                    ctx = {}
+                    for j, idx in enumerate(emb):
+                        alat = self._latest.get(stack[idx].id, {})
+                        for cap in sel["levels"][j].get("caps", []):
+                            if cap["var"] in alat:
+                                ctx[cap.get("as") or cap["var"]] = alat[cap["var"]]
+                    r = apply_override(how_, None, ctx)
                     if r is not DECLINE:
                         val = r
         if val is NOVALUE:
@@ -821,7 +826,7 @@ class Engine:
     def compare_decl(self, op, r):
         """C16 verdict for one call: model (traced twin with decl hook) vs ptera."""
         m, s_ = r["trc"], r["sys"]
-        if not self.instrumented(op.get("fn")):
+        if not self.instrumented(op.get("fn") or self._gen_fn.get(op.get("gen"))):
             # nothing of ptera is involved in this call: plain Python decides
             self.sim.reach("declaration_in_uninstrumented_function")
             return
@@ -1262,6 +1267,10 @@ class Engine:
                         "C17.silent_outside",
                         {"probe": pid, "inactive-but-received": got},
                     )
+                    if str(rec.spec.get("inv", "")).startswith("C09."):
+                        # (C09: the handlers of an overlay whose with-block has ended are never
+                        # put back in force, for anybody)
+                        self.violate(rec.spec["inv"], {"probe": pid, "inactive-but-received": got})
         out = r.get("sys", {}).get("out", ["?"])
         self.sig.add(
             f"{op['op']}:{op.get('fn', op.get('gen'))}:{out[0]}:"
